@@ -23,10 +23,26 @@ and opened with DebFile(fileobj=BytesIO).
     file without fields, and all of it at once - each in the full 150-configuration matrix; their data files (and
     every 0-byte data file of the other contents) are also read through get_file().
 
+  * dot names: data files at the ROOT of the tarball whose own name begins with dots (.hidden, ..x, .a/b, .-, ...y) - alone,
+    next to ordinary names, and not packed while the names they become without their leading dots are (the queries
+    'name', './name', '/name' add a prefix made of the very characters these names start with) - each in the full
+    150-configuration matrix, every file also read through get_file() in the three spellings.
+
+  * ways of opening: everything above hands the package over as DebFile(fileobj=io.BytesIO(raw)).  The constructor
+    documents "either a filename or an existing file object", the class is a context manager and has close(): a subset
+    (three contents in all 25 compression pairs x 2 member orders, every empty-content package in all 25 pairs, every
+    defective member set in one order, large histories in all 25 pairs x 1 member order) is opened through a scratch
+    file as DebFile(filename=path), DebFile(path), `with DebFile(filename=path) as d:`, DebFile(fileobj=open(path, "rb")),
+    after an explicit close() of a first DebFile on the same file ("reopen"), and after the same file NAME held another
+    package that was opened, read and closed ("rewrite").  Same observations, same oracle; signatures get the prefix
+    "via-<mode>/".
+
 Oracle: what was packed (the generator's own lists), never anything read back through the code under test.
 """
 import io
 import itertools
+import os
+import tempfile
 
 from .. import core
 from ..models import debbuilder as db
@@ -42,7 +58,10 @@ RULE = ("inputs = (content, configuration) pairs and defective member sets, walk
         "(get_content / has_file / debcontrol / scripts / md5sums / get_file + read(n) chunks, alternating between the "
         "control and the data part); there a state is an operation prefix, a transition one operation whose result is "
         "compared with what was packed, a trace one complete history.  Empty-content packages (0-byte scripts / md5sums / "
-        "data files, member-less data tarball, empty field values) are further contents of the first tree")
+        "data files, member-less data tarball, empty field values) are further contents of the first tree.  Ways of opening "
+        "(fileobj=BytesIO everywhere; filename=, positional file name, with-statement, a real file object, close()-and-reopen, "
+        "the same file name rewritten with another package) are one more choice below the member order for a stated subset: "
+        "one state / transition / trace per (package, way of opening), the same observations and oracle")
 BUDGET = {"quick": 240, "thorough": 3000}
 
 ORDERS = list(itertools.permutations((0, 1, 2)))
@@ -79,7 +98,26 @@ def bounds(tier):
                 "stream_chunk_sizes": CHUNK[tier],
                 "part_sizes": "every compressed part of big-both/huge-both and every data part exceeds 8192 bytes (20 KB..280 KB)"},
             "empty_contents": [name for name, _c in empties(0)],
-            "open_mode": "DebFile(fileobj=io.BytesIO(...))"}
+            "dot_names": {"names": DOT_NAMES, "contents": [name for name, _c in dotnames(0)],
+                          "queried": "every packed file in the 3 spellings (get_content, has_file, in, get_file); every dot name "
+                                     "and every ordinary name that is not packed must be absent in the 3 spellings"},
+            "open_mode": {"everywhere": "DebFile(fileobj=io.BytesIO(...))",
+                          "other_ways": list(OPEN_MODES[1:]),
+                          "three_contents": "3 contents (%s) x 25 compression pairs x %d member orders: %s"
+                                            % (KIND_CONTENTS, len(kind_orders(tier)),
+                                               "filename= for every package + one of the other ways, rotating" if tier == "quick"
+                                               else "every way for every package"),
+                          "empty_contents": "every empty-content package x 25 compression pairs (member order rotating): filename=%s"
+                                            % ("" if tier == "quick" else " and a real file object"),
+                          "defective_sets": "every defective member set in its canonical member order: filename=%s"
+                                            % ("" if tier == "quick" else " and a real file object"),
+                          "large_histories": "%s of every large content x its compression pairs x 1 member order "
+                                             "(alternating with the pair), chunk size %d: filename=" % (
+                                                 "two histories (rotating with the pair: every history with every compression "
+                                                 "of either part; huge-both: all three)" if tier == "quick" else "every history",
+                                                 CHUNK[tier][0]),
+                          "scratch": "one tempfile per case in /dev/shm when writable (else the default temporary directory), "
+                                     "removed in finally"}}
 
 
 def assumptions():
@@ -103,7 +141,17 @@ def assumptions():
             "without demanding that any of them has content: a 0-byte script is a packed script (scripts() must list it "
             "with b''), a 0-byte md5sums member is an empty list ({}), a 0-byte data file is a file (has_file True, content "
             "b'', get_file() gives an object whose read() is b''), a field written as 'Name:' has the value '' and a 0-byte "
-            "control file has no fields; the unchanged library returns exactly that for all of them"]
+            "control file has no fields; the unchanged library returns exactly that for all of them",
+            "dot names: a data file is './' + name in the tarball (as dpkg-deb writes it); a name may begin with dots ('.hidden', "
+            "'..x', '.a/b') - only '.' and '..' themselves are not file names.  'name', './name' and '/name' are spellings of "
+            "that one name: './.hidden' is the file '.hidden', never the file 'hidden'",
+            "ways of opening: ArFile/DebFile document 'either a filename or an existing file object' (filename is the first "
+            "positional parameter), __enter__/__exit__ and close(); the statement speaks of 'the package reader' without "
+            "restricting how the package is handed over, so every documented way must give the same observations.  close() "
+            "(explicit, or by leaving the with-block) must not raise; nothing is demanded of a DebFile after its close().  "
+            "'reopen' = a first DebFile on the file is queried (debcontrol, one has_file question to the data part) and closed, then a second one is "
+            "opened on the same file and observed; 'rewrite' = the scratch file first holds another well-formed package that is "
+            "opened, queried and closed, then the file is overwritten with the package under test and opened by name"]
 
 
 # ------------------------------------------------------------------------------------------------ content
@@ -223,6 +271,7 @@ def contents_for(tier, seed):
         out.append({"control": [list(p) for p in cv], "scripts": [list(p) for p in sc],
                     "md5": [list(p) for p in md5_entries(md5, ds[i])], "data": [list(p) for p in ds[i]]})
     out += [c for _name, c in empties(seed)]
+    out += [c for _name, c in dotnames(seed)]
     return out
 
 
@@ -260,6 +309,33 @@ def empties(seed):
     add("control file without fields", control=[], data=[])
     add("everything empty", control=[("Package", ""), ("Version", "")], scripts=[(n, b"") for n in db.SCRIPTS], md5="empty",
         data=[(names[0], b""), (names[1], b""), (names[2], b"")])
+    return out
+
+
+DOT_NAMES = [".hidden", "..x", ".a/b", ".-", "...y"]
+
+
+def dotnames(seed):
+    """-> [(name, content)]: data files whose own name begins with dots, at the ROOT of the tarball (the three spellings
+    'name', './name', '/name' differ from them only by a prefix made of the same characters), simplest first"""
+    x, binary, text = symbols(seed)
+    names = data_names(seed)
+    cv = control_variants(seed)
+    out = []
+
+    def add(name, data, control=cv[0], md5="data"):
+        data = [list(p) for p in data]
+        md5e = md5_entries(md5, [tuple(p) for p in data])
+        out.append((name, {"control": [list(p) for p in control], "scripts": [], "md5": [list(p) for p in md5e], "data": data,
+                           "dotnames": name}))
+    add("one dot file at the root", [(".hidden", text)])
+    add("name starting with two dots", [("..x", binary)])
+    add("dot directory at the root", [(".a/b", text)])
+    add("dot and dash", [(".-", text)])
+    add("dot names next to ordinary names", control=cv[1],
+        data=[(names[0], text), (".hidden", binary), (names[1], b""), ("..x", text), (".a/b", binary), ("...y", b""), (".-", b"-")])
+    # ... and the other way round: the dot names are NOT packed, the names they turn into without their dots are
+    add("ordinary names whose dotted variants are asked for", [("hidden", text), ("x", binary), ("a/b", text), ("-", b"")])
     return out
 
 
@@ -349,6 +425,8 @@ def units(tier, seed):
     out = []
     for c in contents_for(tier, seed):
         out.append({"kind": "valid", "content": c})
+    for c in kind_contents(seed):
+        out.append({"kind": "valid-kinds", "content": c})
     dsets = defective_sets()
     chunk = 128
     for i in range(0, len(dsets), chunk):
@@ -366,6 +444,8 @@ def unit_cost(u, tier):
     if u["kind"] == "large":
         return 1000 * len([1 for c, _d in large_pairs(u["content"], tier) if c == u["cc"]])
     c = u["content"]
+    if u["kind"] == "valid-kinds":
+        return 30 + 3 * len(c["data"]) + len(c["scripts"])
     return 10 + 3 * len(c["data"]) + len(c["scripts"])
 
 
@@ -409,15 +489,156 @@ def _read_all(f):
         f.close()
 
 
-def check_valid(raw, content, names_universe, interleave=False):
-    """Open one well-formed package and compare every observation with what was packed.
-    -> list of (sig, expected, observed)"""
-    from debian.debfile import DebFile
-    bad = []
+# ------------------------------------------------------------------------------------------------ ways of opening
+#
+# "fileobj" is DebFile(fileobj=io.BytesIO(raw)), used everywhere.  The others go through a scratch file.
+
+OPEN_MODES = ["fileobj", "filename", "positional", "with", "realfile", "reopen", "rewrite"]
+EXTRA_MODES = OPEN_MODES[2:]
+KIND_CONTENTS = "one data file and nothing else / five scripts, fixed md5sums list, two files / binary config script, no md5sums entry, two files in reversed tar order"
+
+
+def kind_orders(tier):
+    return LARGE_ORDERS[tier]
+
+
+def kind_contents(seed):
+    """the three contents opened in every way: one data file and nothing else; all five scripts, the fixed md5sums list
+    and two data files (names with a blank and non-ASCII); one binary script, no md5sums entry, two files in reversed
+    tar order"""
+    cs = control_sides(seed)
+    ds = data_sets(seed)
+    rs = data_sets(seed, reverse=True)
+    x, binary, text = symbols(seed)
+    names = data_names(seed)
+    picks = [(cs[0], [(names[0], text)]),
+             ([c for c in cs if c[2] == "fixed" and len(c[1]) == 5 and c[0] == control_variants(seed)[1]][0],
+              [(names[1], binary), (names[2], text)]),
+             ([c for c in cs if c[2] == "empty" and [n for n, _b in c[1]] == ["config"] and c[0] == control_variants(seed)[2]][0],
+              [(names[3], b""), (names[0], binary)])]
+    assert picks[1][1] in ds and picks[2][1] in rs
+    out = []
+    for (cv, sc, md5), data in picks:
+        out.append({"control": [list(p) for p in cv], "scripts": [list(p) for p in sc],
+                    "md5": [list(p) for p in md5_entries(md5, data)], "data": [list(p) for p in data]})
+    return out
+
+
+def scratch_dir():
+    d = "/dev/shm"
+    return d if os.path.isdir(d) and os.access(d, os.W_OK | os.X_OK) else None     # None: tempfile's default
+
+
+def _unlink(path):
     try:
-        deb = DebFile(fileobj=io.BytesIO(raw))
-    except Exception as e:
-        return [("deb/open/raises/" + type(e).__name__, "package accepted", _exc(e))]
+        os.unlink(path)
+    except FileNotFoundError:
+        pass
+
+
+def write_scratch(raw, path=None):
+    """raw -> path of a scratch file holding it (the caller removes it in finally); path given: overwrite that file"""
+    if path is None:
+        fd, path = tempfile.mkstemp(prefix="verif-c07-", suffix=".deb", dir=scratch_dir())
+        f = os.fdopen(fd, "wb")
+    else:
+        f = open(path, "wb")
+    try:
+        with f:
+            f.write(raw)
+    except BaseException:
+        _unlink(path)
+        raise
+    return path
+
+
+def open_deb(mode, raw, path, keep):
+    """the DebFile of one package, opened the given way.  keep: receives the file objects the harness has to close.
+    Whatever the library raises on the way propagates (the caller turns it into 'open raises')."""
+    from debian.debfile import DebFile
+    if mode == "fileobj":
+        return DebFile(fileobj=io.BytesIO(raw))
+    if mode in ("filename", "with"):
+        return DebFile(filename=path)
+    if mode == "positional":
+        return DebFile(path)
+    if mode == "realfile":
+        f = open(path, "rb")
+        keep.append(f)
+        return DebFile(fileobj=f)
+    if mode == "reopen":
+        first = DebFile(filename=path)
+        first.debcontrol()
+        first.data.has_file("no/such/file")
+        first.close()
+        return DebFile(filename=path)
+    if mode == "rewrite":
+        open_others()                                   # fills _other
+        write_scratch(_other[0], path)
+        other = DebFile(filename=path)
+        other.debcontrol()
+        other.data.get_content("zz/other")
+        other.close()
+        write_scratch(raw, path)
+        return DebFile(filename=path)
+    raise ValueError(mode)
+
+
+def _via(mode, bad):
+    if mode == "fileobj":
+        return bad
+    return [("via-%s/%s" % (mode, b[0]),) + tuple(b[1:]) for b in bad]
+
+
+def check_valid(raw, content, names_universe, interleave=False, mode="fileobj"):
+    """Open one well-formed package (the given way) and compare every observation with what was packed.
+    -> list of (sig, expected, observed)"""
+    if mode == "fileobj":
+        return _check_valid(raw, None, content, names_universe, interleave, mode)
+    path = write_scratch(raw)
+    try:
+        return _via(mode, _check_valid(raw, path, content, names_universe, interleave, mode))
+    finally:
+        _unlink(path)
+
+
+def _check_valid(raw, path, content, names_universe, interleave, mode):
+    keep = []
+    try:
+        try:
+            deb = open_deb(mode, raw, path, keep)
+        except Exception as e:
+            return [("deb/open/raises/" + type(e).__name__, "package accepted", _exc(e))]
+        if mode == "with":
+            bad = []
+            stage = "enter"
+            try:
+                with deb as entered:
+                    stage = "body"
+                    if entered is not deb:
+                        bad = [("deb/with/enter-result", "the DebFile object", repr(entered))]
+                    else:
+                        bad = _observe_valid(deb, content, names_universe, interleave)
+                    stage = "exit"
+            except Exception as e:
+                if stage == "body":
+                    raise               # the observations catch what the library raises: this is the harness
+                bad = bad + [("deb/with/%s/raises/%s" % (stage, type(e).__name__), "no exception", _exc(e))]
+            return bad
+        bad = _observe_valid(deb, content, names_universe, interleave)
+        if mode != "fileobj":
+            try:
+                deb.close()
+            except Exception as e:
+                bad = bad + [("deb/close/raises/" + type(e).__name__, "no exception", _exc(e))]
+        return bad
+    finally:
+        for f in keep:
+            f.close()
+
+
+def _observe_valid(deb, content, names_universe, interleave):
+    bad = []
     if interleave:
         try:
             _keep = open_others()
@@ -453,7 +674,7 @@ def check_valid(raw, content, names_universe, interleave=False):
                 bad.append(("deb/data/contains/" + sp, True, got))
             # get_file(): every spelling in the empty-content packages; elsewhere for 0-byte files, one spelling each
             # (non-empty files are streamed through get_file() by the large-package histories)
-            if content.get("empties") or (not data and sp == SPELLINGS[len(name) % 3][0]):
+            if content.get("empties") or content.get("dotnames") or (not data and sp == SPELLINGS[len(name) % 3][0]):
                 ok, got = attempt("deb/data/get_file/" + sp, lambda: _read_all(deb.data.get_file(q)))
                 if ok and got != data:
                     bad.append(("deb/data/get_file/" + sp, data, got))
@@ -523,19 +744,32 @@ def check_valid(raw, content, names_universe, interleave=False):
     return uniq
 
 
-def check_defective(members):
+def check_defective(members, mode="fileobj"):
     """members: member names in archive order -> list of (sig, expected, observed)"""
-    from debian.debfile import DebFile, DebError
+    from debian.debfile import DebError
     kind = classify(members)
     assert kind is not None
     raw = db.assemble([(n, member_bytes(n)) for n in members])
+    path = write_scratch(raw) if mode != "fileobj" else None
+    keep = []
     try:
-        DebFile(fileobj=io.BytesIO(raw))
-    except DebError:
-        return [], kind, "DebError"
-    except Exception as e:
-        return [("deb/defective/wrong-exception/" + kind, "DebError", _exc(e))], kind, type(e).__name__
-    return [("deb/defective/accepted/" + kind, "DebError", "package accepted")], kind, "accepted"
+        try:
+            deb = open_deb(mode, raw, path, keep)
+        except DebError:
+            return [], kind, "DebError"
+        except Exception as e:
+            return _via(mode, [("deb/defective/wrong-exception/" + kind, "DebError", _exc(e))]), kind, type(e).__name__
+        if path is not None:
+            try:
+                deb.close()
+            except Exception:
+                pass
+        return _via(mode, [("deb/defective/accepted/" + kind, "DebError", "package accepted")]), kind, "accepted"
+    finally:
+        for f in keep:
+            f.close()
+        if path is not None:
+            _unlink(path)
 
 
 class Packer(object):
@@ -698,14 +932,39 @@ def _cmp_bytes(want, got):
             _describe(got) + "; at offset %d: %r" % (k, got[k:k + 16]))
 
 
-def check_history(raw, lg, ops):
-    """Run one history on one DebFile(fileobj=...) object; stop at the first wrong observation (after it the position of
-    the streams is no longer known).  -> (list of (sig, expected, observed), observations compared)"""
-    from debian.debfile import DebFile
+def check_history(raw, lg, ops, mode="fileobj"):
+    """Run one history on one DebFile object (opened the given way); stop at the first wrong observation (after it the
+    position of the streams is no longer known).  -> (list of (sig, expected, observed), observations compared)"""
+    if mode == "fileobj":
+        return _check_history(raw, None, lg, ops, mode)
+    path = write_scratch(raw)
     try:
-        deb = DebFile(fileobj=io.BytesIO(raw))
-    except Exception as e:
-        return [("deb/large/open/raises/" + type(e).__name__, "package accepted", _exc(e))], 0
+        bad, n = _check_history(raw, path, lg, ops, mode)
+        return _via(mode, bad), n
+    finally:
+        _unlink(path)
+
+
+def _check_history(raw, path, lg, ops, mode):
+    keep = []
+    try:
+        try:
+            deb = open_deb(mode, raw, path, keep)
+        except Exception as e:
+            return [("deb/large/open/raises/" + type(e).__name__, "package accepted", _exc(e))], 0
+        bad, n = _run_history(deb, lg, ops)
+        if mode != "fileobj" and not bad:
+            try:
+                deb.close()
+            except Exception as e:
+                bad = [("deb/large/close/raises/" + type(e).__name__, "no exception", _exc(e))]
+        return bad, n
+    finally:
+        for f in keep:
+            f.close()
+
+
+def _run_history(deb, lg, ops):
     prefix = dict(SPELLINGS)
     handles = {}
     n = 0
@@ -767,33 +1026,52 @@ def run_large(u, tier, seed):
     lg = Large(spec)
     cc = u["cc"]
     part.states += 1
-    for dc in [d for c, d in large_pairs(u["content"], tier) if c == cc]:
-        part.states += 1
-        part.transitions += 1
+    pairs = [d for c, d in large_pairs(u["content"], tier) if c == cc]
+    jobs = []
+    for pi, dc in enumerate(pairs):
         for order in LARGE_ORDERS[tier]:
-            raw = lg.raw(cc, dc, order)
-            part.states += 1
-            part.transitions += 1
             for hist in LARGE_HISTORIES[u["content"]]:
                 for chunk in (CHUNK[tier] if hist.startswith("stream") else [0]):
-                    ops = history_ops(hist, lg, chunk)
-                    bad, n = check_history(raw, lg, ops)
-                    part.states += len(ops)
-                    part.transitions += len(ops)
-                    part.traces += 1
-                    part.evaluations += n
-                    part.nontrivial += 1
-                    part.max_depth = max(part.max_depth, len(ops))
-                    case = {"kind": "large", "cc": cc, "dc": dc, "order": list(order), "history": hist, "chunk": chunk,
-                            "ops": ops, "content": spec}
-                    for sig, exp, obs in bad:
-                        part.violation(sig, case, exp, obs, rank=len(ops))
-                    part.outcomes["large %s data=%s -> %s" % (hist, dc, "violating" if bad else "all bytes as packed")] += 1
-                    part.extra["large content %s" % u["content"]] += 1
-                    part.extra["large part sizes: control %s, data %s" % (_bucket(len(_compress_cached(lg.ctar, cc))),
-                                                                          _bucket(len(_compress_cached(lg.dtar, dc))))] += 1
-                    if hist == "data-first" and dc == "xz" and order == (0, 1, 2):
-                        part.sample(case)
+                    jobs.append((dc, order, hist, chunk, "fileobj"))
+    # ... and through DebFile(filename=...): one member order per pair (first chunk size); quick: two of the histories per
+    # pair, rotating with the pair, so that every history meets every compression of either part
+    hs = LARGE_HISTORIES[u["content"]]
+    for pi, dc in enumerate(pairs):
+        r = pi + db.COMPRESSIONS.index(cc)
+        order = LARGE_ORDERS[tier][r % len(LARGE_ORDERS[tier])]
+        chosen = hs if (tier != "quick" or u["content"] == "huge-both") else [hs[r % len(hs)], hs[(r + 2) % len(hs)]]
+        for hist in [h for h in hs if h in chosen]:
+            jobs.append((dc, order, hist, CHUNK[tier][0] if hist.startswith("stream") else 0, "filename"))
+    seen_nodes = set()
+    for dc, order, hist, chunk, mode in jobs:
+        for node in (("pair", dc), ("order", dc, order)):
+            if node not in seen_nodes:
+                seen_nodes.add(node)
+                part.states += 1
+                part.transitions += 1
+        raw = lg.raw(cc, dc, order)
+        ops = history_ops(hist, lg, chunk)
+        bad, n = check_history(raw, lg, ops, mode)
+        part.states += len(ops)
+        part.transitions += len(ops)
+        part.traces += 1
+        part.evaluations += n
+        part.nontrivial += 1
+        part.max_depth = max(part.max_depth, len(ops))
+        case = {"kind": "large", "cc": cc, "dc": dc, "order": list(order), "history": hist, "chunk": chunk,
+                "ops": ops, "content": spec}
+        if mode != "fileobj":
+            case["open"] = mode
+            part.extra["opened via %s (large history)" % mode] += 1
+        for sig, exp, obs in bad:
+            part.violation(sig, case, exp, obs, rank=len(ops))
+        part.outcomes["large %s data=%s%s -> %s" % (hist, dc, "" if mode == "fileobj" else " via " + mode,
+                                                     "violating" if bad else "all bytes as packed")] += 1
+        part.extra["large content %s" % u["content"]] += 1
+        part.extra["large part sizes: control %s, data %s" % (_bucket(len(_compress_cached(lg.ctar, cc))),
+                                                              _bucket(len(_compress_cached(lg.dtar, dc))))] += 1
+        if hist == "data-first" and dc == "xz" and order == (0, 1, 2) and mode == "fileobj":
+            part.sample(case)
     return part
 
 
@@ -822,12 +1100,54 @@ def run_unit(u, tier, seed):
                     part.violation(sig, case, exp, obs)
                 if len(members) in (0, 3, 11):
                     part.sample(case)
+            for mode in (["filename"] if tier == "quick" else ["filename", "realfile"]):
+                part.states += 1
+                part.transitions += 1
+                bad, kind, outcome = check_defective(list(names), mode)
+                part.traces += 1
+                part.evaluations += 1
+                part.nontrivial += 1
+                part.outcomes["defective via %s/%s -> %s" % (mode, kind, outcome)] += 1
+                part.extra["opened via %s (defective set)" % mode] += 1
+                case = {"kind": "defective", "members": list(names), "open": mode}
+                for sig, exp, obs in bad:
+                    part.violation(sig, case, exp, obs)
         return part
     content = dict(u["content"])
-    content["universe"] = data_names(seed)
+    content["universe"] = data_names(seed) + (DOT_NAMES if content.get("dotnames") else [])
     pk = Packer(content)
     part.states += 1 + 5 + 25
     part.transitions += 5 + 25
+
+    def run_mode(cc, dc, order, mode, what):
+        raw = pk.raw(cc, dc, order)
+        bad = check_valid(raw, content, content["universe"], mode=mode)
+        part.states += 1
+        part.transitions += 1
+        part.traces += 1
+        part.evaluations += 1
+        part.nontrivial += 1
+        case = {"kind": "valid", "content": content, "cc": cc, "dc": dc, "order": list(order), "open": mode}
+        for sig, exp, obs in bad:
+            part.violation(sig, case, exp, obs)
+        part.outcomes["via %s control=%s -> %s" % (mode, cc, "violating" if bad else "as packed")] += 1
+        part.extra["opened via %s (%s)" % (mode, what)] += 1
+        return case
+
+    if u["kind"] == "valid-kinds":
+        i = 0
+        for cc in db.COMPRESSIONS:
+            for dc in db.COMPRESSIONS:
+                for order in kind_orders(tier):
+                    part.states += 1
+                    part.transitions += 1
+                    modes = ["filename", EXTRA_MODES[i % len(EXTRA_MODES)]] if tier == "quick" else OPEN_MODES[1:]
+                    for mode in modes:
+                        case = run_mode(cc, dc, order, mode, "three contents")
+                    i += 1
+        part.max_depth = 5
+        part.sample(case)
+        return part
     for cc, dc, order in CONFIGS:
         raw = pk.raw(cc, dc, order)
         part.states += 1
@@ -848,6 +1168,8 @@ def run_unit(u, tier, seed):
         part.extra["data files=%d" % len(content["data"])] += 1
         part.extra["scripts=%d" % len(content["scripts"])] += 1
         part.extra["empty scripts=%d" % len([1 for _n, c in content["scripts"] if not c])] += 1
+        if content.get("dotnames"):
+            part.extra["dot-name packages"] += 1
     # isolation: the same observations with another package opened (and a defective one refused) in between
     for cc, dc, order in (CONFIGS[0], CONFIGS[len(CONFIGS) // 2], CONFIGS[-1]):
         raw = pk.raw(cc, dc, order)
@@ -861,27 +1183,36 @@ def run_unit(u, tier, seed):
         for sig, exp, obs in bad:
             part.violation("isolation/" + sig, case, exp, obs)
         part.outcomes["isolation/" + ("violating" if bad else "ok")] += 1
+    if content.get("empties"):
+        # the empty-content packages through a file name as well: every compression pair, the member order rotating
+        i = 0
+        for cc in db.COMPRESSIONS:
+            for dc in db.COMPRESSIONS:
+                for mode in (["filename"] if tier == "quick" else ["filename", "realfile"]):
+                    run_mode(cc, dc, ORDERS[i % len(ORDERS)], mode, "empty contents")
+                i += 1
     part.max_depth = 4
     part.sample({"kind": "valid", "content": content, "cc": "xz", "dc": "none", "order": [2, 0, 1]})
     return part
 
 
 def replay(case):
+    mode = case.get("open", "fileobj")
     if case["kind"] == "defective":
-        return check_defective(list(case["members"]))[0]
+        return check_defective(list(case["members"]), mode)[0]
     if case["kind"] == "large":
         lg = Large(case["content"])
-        return check_history(lg.raw(case["cc"], case["dc"], tuple(case["order"])), lg, case["ops"])[0]
+        return check_history(lg.raw(case["cc"], case["dc"], tuple(case["order"])), lg, case["ops"], mode)[0]
     content = case["content"]
     pk = Packer(content)
     raw = pk.raw(case["cc"], case["dc"], tuple(case["order"]))
     if case.get("interleave"):
         return [("isolation/" + b[0],) + tuple(b[1:]) for b in check_valid(raw, content, content["universe"], True)]
-    return check_valid(raw, content, content["universe"])
+    return check_valid(raw, content, content["universe"], mode=mode)
 
 
 def repro_py(case):
-    if case["kind"] == "defective":
+    if case["kind"] == "defective" and not case.get("open"):
         return ("import io\nfrom debian.debfile import DebFile, DebError\nfrom mc.props import c07\nfrom mc.models import debbuilder as db\n"
                 "members = %r\nraw = db.assemble([(n, c07.member_bytes(n)) for n in members])\n"
                 "try:\n    DebFile(fileobj=io.BytesIO(raw))\nexcept DebError:\n    pass\nelse:\n    raise AssertionError('accepted')\n"
